@@ -22,7 +22,7 @@ int __real_pthread_create(pthread_t *, const pthread_attr_t *, void *(*)(void *)
 int __real_pthread_join(pthread_t, void **);
 
 #define MAXTRIALS 400
-#define NKINDS 10
+#define NKINDS 11
 static const size_t SIZES[] = { 9, 16, 17, 24, 40, 63, 64, 100, 200 };
 #define NSIZES (sizeof SIZES / sizeof SIZES[0])
 
@@ -184,6 +184,22 @@ static void *cond_watcher(struct cmb_process *me, void *ctx)
     return NULL;
 }
 
+/* kind 10: the process was created and initialised by the MAIN thread before the experiment (one per trial and phase); the trial
+ * only starts it, runs it and takes it down.  Nothing in the headers says a process must be initialised by the thread that runs it. */
+struct prew { struct cmb_process *p; unsigned n; double acc; uint64_t h; };
+static struct prew pre[3][MAXTRIALS];
+static int phase;                /* 0: the experiment, 1: each trial alone in a fresh thread, 2: one after another */
+static void *pre_body(struct cmb_process *me, void *ctx)
+{
+    (void)me; struct prew *w = ctx;
+    for (unsigned i = 0; i < w->n; i++) {
+        const double d = cmb_random_exponential(1.0);
+        if (cmb_process_hold(d) != CMB_PROCESS_SUCCESS) break;
+        w->acc += d; w->h = w->h * 5 + (uint64_t)cmb_random_flip();
+    }
+    return NULL;
+}
+
 static void *looper(struct cmb_process *me, void *ctx)
 {
     (void)me; uint64_t *cnt = ctx;
@@ -246,6 +262,18 @@ static void trial_compute(const tparams *tp, tresult *res)
         cmb_process_terminate(boss); cmb_process_destroy(boss);
         cmb_resourcepool_destroy(w.pool); cmb_resource_destroy(w.res);
         for (unsigned i = 0; i < nj; i++) free(junk[i]);
+        cmb_event_queue_terminate();
+        break; }
+    case 10: {
+        struct prew *w = &pre[phase][tp->idx % MAXTRIALS];
+        if (w->p == NULL) break;                                     /* (replayed plan with another shape: nothing prepared) */
+        PROBE("exp.process_initialised_by_main_thread");
+        cmb_event_queue_initialize(0.0);
+        cmb_process_start(w->p);
+        baton_yield();
+        run_queue();
+        res->r[0] = dbl(w->acc); res->r[1] = w->h; res->r[2] = dbl(cmb_time());
+        cmb_process_terminate(w->p); cmb_process_destroy(w->p); w->p = NULL;
         cmb_event_queue_terminate();
         break; }
     case 9: {                                                         /* a trial that gives up: a few draws, then (in the experiment) cmb_logger_error */
@@ -404,6 +432,16 @@ static void ex_run(const plan *p)
         memcpy(arr + (size_t)i * esz + hdr, &tp, sizeof tp);
         memset(arr + (size_t)i * esz + hdr + sizeof tp, 0xEE, esz - hdr - sizeof tp);
     }
+    memset(pre, 0, sizeof pre);
+    for (int i = 0; i < ntrials; i++) {
+        tparams tp; memcpy(&tp, arr + (size_t)i * esz + hdr, sizeof tp);
+        if (tp.kind % NKINDS != 10) continue;
+        for (int ph = 0; ph < 3; ph++) {
+            struct prew *w = &pre[ph][i];
+            w->n = 2 + tp.n % 9u; w->p = cmb_process_create();
+            cmb_process_initialize(w->p, "pre", pre_body, w, 0);
+        }
+    }
     memset(arr + (size_t)ntrials * esz, 0x5A, esz);                    /* canary element after the array */
     memcpy(refarr, arr, ((size_t)ntrials + 1) * esz);
     memcpy(seq_arr, arr, ((size_t)ntrials + 1) * esz);
@@ -411,6 +449,7 @@ static void ex_run(const plan *p)
     active = max_active = 0; total_events = 0;
 
     const uint32_t csr0 = _mm_getcsr();
+    phase = 0;
     baton_begin(sched, pct);
     baton_set_cores((uint32_t)nworkers);
     experiment_running = true;
@@ -444,12 +483,14 @@ static void ex_run(const plan *p)
     for (size_t b = 0; b < esz; b++) if (arr[(size_t)ntrials * esz + b] != 0x5A) { viol("C19", "wrote-past-array", "the element after the trial array was modified"); break; }
 
     if (g_nviol == 0) {
+        phase = 1;
         for (int i = 0; i < ntrials; i++) {
             pthread_t th;
             __real_pthread_create(&th, NULL, ref_thread, refarr + (size_t)i * esz);
             __real_pthread_join(th, NULL);
         }
         pthread_t th;
+        phase = 2;
         __real_pthread_create(&th, NULL, seq_thread, NULL);
         __real_pthread_join(th, NULL);
         for (int i = 0; i < ntrials; i++) {
@@ -475,6 +516,7 @@ static void ex_run(const plan *p)
     if (ntrials == nworkers) PROBE("exp.trials_equal_workers");
     if (ntrials > 3 * nworkers) PROBE("exp.many_more_trials_than_workers");
     if (ntrials >= 64 * nworkers) PROBE("exp.trials_ge_64_per_worker");
+    for (int ph = 0; ph < 3; ph++) for (int i = 0; i < MAXTRIALS; i++) if (pre[ph][i].p) { cmb_process_terminate(pre[ph][i].p); cmb_process_destroy(pre[ph][i].p); pre[ph][i].p = NULL; }
     free(arr); free(refarr); free(seq_arr);
 }
 
